@@ -35,6 +35,7 @@ LiveOK ==
               /\ \A t \in ts : /\ t.lab = tk'[t.k].label
                                /\ (t.slotok \/ tk'[t.k].fresh)
                                /\ t.userinit = (tk'[t.k].user # "nopin")
+                               /\ t.ulow = low'[t.k].u /\ t.slow = low'[t.k].s
               /\ \A p \in ToSet(v.ss) : IF p[1] \in DOMAIN sess' THEN p[2] = StateN(p[1]) ELSE p[2] = "INVALID"
          /\ "objs" \in Obs => \A t \in ts : t.k \in DOMAIN tk' => ToSet(t.vis) = VisibleN(t.k)
 
@@ -46,6 +47,8 @@ FreshOK ==
          /\ \A t \in ts : /\ t.lab = tk'[t.k].label
                           /\ t.slotok
                           /\ t.userinit = (tk'[t.k].user # "nopin")
+                          \* (the helper process tries PINs itself, see "pins": it reports the flags it found BEFORE doing so)
+                          /\ t.ulow = low'[t.k].u /\ t.slow = low'[t.k].s
     /\ "pins" \in Obs =>
          \A t \in ts : t.k \in DOMAIN tk' =>
               /\ ToSet(t.so_pins) = {tk'[t.k].so}
@@ -61,7 +64,7 @@ Post == Cls(rv') = Cls(E.rv) /\ LiveOK /\ FreshOK
 IsEv(name) == l <= Len(T) /\ E.e = name /\ l' = l + 1
 
 TReset == /\ IsEv("Reset")
-          /\ tk' = <<>> /\ up' = TRUE /\ sess' = <<>> /\ login' = <<>> /\ issued' = {} /\ gone' = {} /\ rv' = "OK"
+          /\ tk' = <<>> /\ up' = TRUE /\ sess' = <<>> /\ login' = <<>> /\ issued' = {} /\ gone' = {} /\ low' = <<>> /\ rv' = "OK"
 TInitFresh  == IsEv("MInitFresh") /\ InitFresh(E.k, E.pin, E.lab) /\ Post
 TReInit     == IsEv("MReInit") /\ ReInit(E.k, E.pin, E.lab) /\ Post
 TRestart    == IsEv("MRestart") /\ Restart /\ Post
